@@ -22,7 +22,9 @@ from vlib import Inconclusive, log
 
 FAM = {
     "C11": dict(mc="MC_Deps", sim="MC_DepsSim", sim_depth=30, sim_n=dict(quick=400, thorough=6000),
-                hv="c11", obs="DepsObs", export="DepsExport", inv="AgreeInv"),
+                hv="c11", obs="DepsObs", export="DepsExport", inv="AgreeInv",
+                # hist_share: the part of the cases (seeded) that also takes the history route: real install, then upgrades
+                hist_share=dict(quick=4, thorough=2)),
     # cli_share: the part of the cases (seeded choice) that is also run through the helm command line (pkg/cmd)
     "C14": dict(mc="MC_Schema", sim=None, hv="c14", obs="SchemaObs", export="SchemaExport", inv="SchemaInv",
                 cli_share=dict(quick=3, thorough=1)),
@@ -59,7 +61,7 @@ def enumerate_cases(d, fam, tier, timeout):
     cfg = fam["mc"] + ("_thorough.cfg" if tier == "thorough" else ".cfg")
     rc, out, dt = vlib.tlc(d, fam["mc"] + ".tla", cfg, extra=["-continue"], workers=tlc_workers(tier), timeout=timeout)
     gen, dist, depth = vlib.tlc_stats(out)
-    leads = len(re.findall(r"Invariant %s is violated" % fam["inv"], out))
+    leads = len(re.findall(r"Invariant %s\w* is violated" % fam["inv"], out))
     if "Model checking completed" not in out and not leads:
         raise Inconclusive("exhaustive TLC run of %s did not complete:\n%s" % (cfg, out[-3000:]))
     if re.search(r"Error: (?!Invariant)", out) and "is violated" not in out:
@@ -78,7 +80,7 @@ def simulate_cases(d, fam, n, seed, timeout):
         raise Inconclusive("simulation run failed:\n" + out[-3000:])
     m = re.search(r"The number of states generated: (\d+)", out)
     states = int(m.group(1)) if m else 0
-    leads = len(re.findall(r"Invariant %s is violated" % fam["inv"], out))
+    leads = len(re.findall(r"Invariant %s\w* is violated" % fam["inv"], out))
     cases = read_gen(d)
     return dict(cfg=fam["sim"] + ".cfg", walks=n, states=states, seconds=round(dt, 1), model_leads_outside_known_shapes=leads), cases
 
@@ -260,6 +262,8 @@ def run_family(pid, tier, seed, replay=None):
 
     if replay:
         cf = json.load(open(replay))
+        if "hist_share" in fam:
+            cf.setdefault("hist", True)
         if "cli_share" in fam:
             cf.setdefault("cli", True)
             cf.setdefault("cliflag", CLI_FLAGS[0])
@@ -288,6 +292,11 @@ def run_family(pid, tier, seed, replay=None):
 
     if "cli_share" in fam:
         mark_cli(cases, fam["cli_share"][tier], seed)
+    if "hist_share" in fam:
+        rnd = random.Random(seed)
+        for cf in cases:
+            if fam["hist_share"][tier] <= 1 or rnd.randrange(fam["hist_share"][tier]) == 0:
+                cf["hist"] = True
 
     # 3. the real code
     lines, hdt = run_harness(hv, fam["hv"], cases, d)
@@ -358,6 +367,10 @@ def run_family(pid, tier, seed, replay=None):
         cov["model_leads_in_known_shapes"] = sum(1 for c in cases if c.get("exp", {}).get("agree") is False and c["exp"].get("lead"))
         cov["model_leads_not_reproduced_on_real_code"] = len(unreproduced)
         cov["observations_equal_to_code_shaped_model"] = c11_conformance(cases, lines)
+        hs = [json.loads(l) for l in lines if '"hist":true' in l]
+        cov["cases_on_history_route"] = len(hs)
+        cov["history_route_installs_ok"] = sum(1 for o in hs if o["iok"])
+        cov["history_route_upgrades_run"] = sum(len(o["ups"]) for o in hs)
         assumptions = [
             "bounded space: trees to depth 3 (root, mid, leaf, oth), keys {a,b,en,flag,global,tags}, no lists / nulls (C04), no import-values; "
             "condition paths point into the dependency's own section, at a parent flag or at a global flag (not into a sibling's section)",
@@ -365,6 +378,9 @@ def run_family(pid, tier, seed, replay=None):
             "where a condition path points into a SIBLING dependency's section and is decided by that sibling's own default values, the "
             "property does not say whether a sibling that ends up disabled still lends its defaults: both outcomes are accepted (Deps.tla ExpEs)",
             "probe templates ({{ toJson .Values }}) report what a chart sees; hooks / CRDs / notes are attributed by their template path",
+            "history route (seeded share of the cases): real action.Install with the case's values, then action.Upgrade with an empty values map in "
+            "the default / reuse-values / reset-then-reuse-values / reset-values modes over the simulated cluster (Secrets storage); CRDs in the "
+            "cluster are attributed to the chart directory that ships them",
         ]
     else:
         ops = [p for l in lines for p in json.loads(l).get("ops", [])]
